@@ -382,9 +382,11 @@ func c03Exec[T comparable](c *c03Case, conc func(int) T, abs func(T) int, nilEmp
 }
 
 // numeric helpers exist only for Numeric element types
-func c03ExecNum[T fpgo.Numeric](c *c03Case, nilEmpty bool) (out c03Out) {
-	conc := func(e int) T { return T(e) }
-	abs := func(x T) int { return int(x) }
+// scale > 1 (float types only): the abstract integer e stands for e/scale, so spans and hops that are not whole numbers
+// are exercised with the same integer definitions (quarters are exact in binary floating point)
+func c03ExecNum[T fpgo.Numeric](c *c03Case, nilEmpty bool, scale int) (out c03Out) {
+	conc := func(e int) T { return T(e) / T(scale) }
+	abs := func(x T) int { return int(x * T(scale)) }
 	ga := guard(c.A, conc, nilEmpty)
 	defer func() {
 		if p := recover(); p != nil {
@@ -405,7 +407,9 @@ func c03ExecNum[T fpgo.Numeric](c *c03Case, nilEmpty bool) (out c03Out) {
 	case "Range":
 		var r []T
 		if c.F == "hop" {
-			r = fpgo.Range(T(c.N), T(c.N3), T(c.N2))
+			r = fpgo.Range(conc(c.N), conc(c.N3), conc(c.N2))
+		} else if scale != 1 {
+			r = fpgo.Range(conc(c.N), conc(c.N3), conc(1)) // the default hop (1) is exercised by the unscaled types
 		} else {
 			r = fpgo.Range(T(c.N), T(c.N3))
 		}
@@ -445,13 +449,17 @@ func c03Run(c *c03Case, ty string, nilEmpty bool) c03Out {
 	if c03IsNumeric(c.Fn) {
 		switch ty {
 		case "int":
-			return c03ExecNum[int](c, nilEmpty)
+			return c03ExecNum[int](c, nilEmpty, 1)
 		case "float64":
-			return c03ExecNum[float64](c, nilEmpty)
+			return c03ExecNum[float64](c, nilEmpty, 1)
+		case "float64/4":
+			return c03ExecNum[float64](c, nilEmpty, 4)
+		case "float32/4":
+			return c03ExecNum[float32](c, nilEmpty, 4)
 		case "int8":
-			return c03ExecNum[int8](c, nilEmpty)
+			return c03ExecNum[int8](c, nilEmpty, 1)
 		}
-		return c03ExecNum[int64](c, nilEmpty)
+		return c03ExecNum[int64](c, nilEmpty, 1)
 	}
 	switch ty {
 	case "int":
@@ -464,7 +472,7 @@ func c03Run(c *c03Case, ty string, nilEmpty bool) c03Out {
 
 func c03Types4(fn string) []string {
 	if c03IsNumeric(fn) {
-		return []string{"int", "float64", "int64"}
+		return []string{"int", "float64", "int64", "float64/4", "float32/4"}
 	}
 	return c03Types
 }
